@@ -88,17 +88,49 @@ func (c *Ctx) statParams() (docs, freq int, site ssa.CallInstruction) {
 		d     dest
 	}
 	var cands []cand
-	for _, b := range pf.Blocks {
-		for _, ins := range b.Instrs {
-			lk, ok := ins.(*ssa.Lookup)
+	// accessorMap: call is h(m, …) with h an in-package accessor returning a lookup in its map parameter
+	accessorMap := func(call *ssa.Call) *ssa.Parameter {
+		sc := call.Call.StaticCallee()
+		if sc == nil || !c.inRoot(sc) || sc.Blocks == nil {
+			return nil
+		}
+		for _, b := range sc.Blocks {
+			ret, ok := b.Instrs[len(b.Instrs)-1].(*ssa.Return)
+			if !ok || len(ret.Results) != 1 {
+				continue
+			}
+			lk, ok := stripConv(ret.Results[0]).(*ssa.Lookup)
 			if !ok {
 				continue
 			}
-			p, ok := lk.X.(*ssa.Parameter)
-			if !ok || p.Type().String() != "map[uint16]uint64" {
+			hp, ok := lk.X.(*ssa.Parameter)
+			if !ok {
 				continue
 			}
-			for _, d := range flow(pf, lk, 0) {
+			if p, ok := argFor(&call.Call, hp).(*ssa.Parameter); ok && p.Parent() == pf {
+				return p
+			}
+		}
+		return nil
+	}
+	for _, b := range pf.Blocks {
+		for _, ins := range b.Instrs {
+			var src ssa.Value
+			var p *ssa.Parameter
+			switch x := ins.(type) {
+			case *ssa.Lookup:
+				if pp, ok := x.X.(*ssa.Parameter); ok {
+					src, p = x, pp
+				}
+			case *ssa.Call:
+				if pp := accessorMap(x); pp != nil {
+					src, p = x, pp
+				}
+			}
+			if p == nil || p.Type().String() != "map[uint16]uint64" {
+				continue
+			}
+			for _, d := range flow(pf, src, 0) {
 				cands = append(cands, cand{paramIndex(p), d})
 			}
 		}
@@ -435,6 +467,38 @@ func init() {
 			}
 			// (2) loadFields: the value stored to fieldDocs is decoded before the one stored to fieldFreqs
 			lf := c.MustFn("(*Segment).loadFields")
+			// the record may be decoded in a helper loadFields is split into: take the
+			// function (two levels) that stores into Segment.fieldDocs
+			{
+				storesStats := func(f *ssa.Function) bool {
+					for _, b := range f.Blocks {
+						for _, ins := range b.Instrs {
+							if mu, ok := ins.(*ssa.MapUpdate); ok && strings.HasSuffix(accessPath(mu.Map), ".fieldDocs") {
+								return true
+							}
+						}
+					}
+					return false
+				}
+				if !storesStats(lf) {
+				search:
+					for _, sc := range staticCallees(lf) {
+						if !c.inRoot(sc) || sc.Blocks == nil {
+							continue
+						}
+						if storesStats(sc) {
+							lf = sc
+							break search
+						}
+						for _, sc2 := range staticCallees(sc) {
+							if c.inRoot(sc2) && sc2.Blocks != nil && storesStats(sc2) {
+								lf = sc2
+								break search
+							}
+						}
+					}
+				}
+			}
 			var dIdx, fIdx []int
 			order := map[ssa.Value]int{}
 			n := 0
